@@ -20,11 +20,13 @@ fn parse(arguments: &Vec<String>) -> Result<Instruction, String> {
             line_buffer.push_str(argument);
             line_buffer.push('\\');
         } else {
-            if argument.contains(" ") {
+            // any white space (not only a blank) would be lost or would split the argument when the line is parsed again
+            let quote = argument.chars().any(char::is_whitespace);
+            if quote {
                 line_buffer.push('"');
             }
             line_buffer.push_str(argument);
-            if argument.contains(" ") {
+            if quote {
                 line_buffer.push('"');
             }
         }
